@@ -219,6 +219,14 @@ pub fn parse_basic(text: &str, payloads: &[String]) -> String {
             l = &l[c[0].len()..];
         }
         if l.is_empty() { continue; }
+        // a World dump (`{:#?}` of the harness' World, verbosity >= ShowWorld): display, not a fact
+        if l.trim_start().starts_with("PW {") {
+            if !l.trim_end().ends_with('}') {
+                while i < lines.len() && lines[i].trim_start() != "}" { i += 1; }
+                i += 1;
+            }
+            continue;
+        }
         if let Some(rest) = l.strip_prefix("Failed to parse: ") {
             recs.push(format!("PE {}", num_after(rest, "p/").map_or_else(|| "?".to_owned(), |n| n.to_string())));
         } else if let Some(rest) = l.strip_prefix("Feature: f-") {
@@ -264,7 +272,7 @@ pub fn parse_basic(text: &str, payloads: &[String]) -> String {
             i += 1;
             // the payload line (absent for an empty payload): indented by ind + 3
             let is_block = |x: &str| x.is_empty() || step_re.is_match(x) || hook_re.is_match(x) || scen_re.is_match(x) || rule_re.is_match(x)
-                || x.starts_with("Feature: ") || x.starts_with("Failed to parse: ") || log_re.is_match(x);
+                || x.starts_with("Feature: ") || x.starts_with("Failed to parse: ") || log_re.is_match(x) || x.trim_start().starts_with("PW {");
             let p = match lines.get(i) {
                 Some(x) if !is_block(x) => { i += 1; x.trim_start().to_owned() }
                 _ => String::new(),
@@ -334,10 +342,17 @@ pub fn gen_report(rng: &mut Rng, idx: usize) -> Case {
     let jr = std::panic::catch_unwind(std::panic::AssertUnwindSafe(|| run(&mut |e| block_on(ju.handle_event(cat.realize(e), &ju_cli)))));
     crate::fam_attempt::HOOK_QUIET.with(|q| q.set(false));
 
+    // the plain terminal writer with random verbosity (constructor and CLI) and, half of the time, a World
+    // attached to the Failed events: what it prints of the World is display — no fact may change
     let s4 = Sink::default();
-    let mut ba = writer::Basic::raw(s4.clone(), writer::Coloring::Never, 0);
-    let ba_cli = writer::basic::Cli { verbose: 0, color: writer::Coloring::Never };
+    let ba_v0 = rng.below(3) as u8;
+    let ba_v1 = rng.below(4) as u8;
+    let ba_world = rng.chance(1, 2);
+    let mut ba = writer::Basic::raw(s4.clone(), writer::Coloring::Never, ba_v0);
+    let ba_cli = writer::basic::Cli { verbose: ba_v1, color: writer::Coloring::Never };
+    WITH_WORLD.with(|w| w.set(ba_world));
     run(&mut |e| block_on(Writer::<PW>::handle_event(&mut ba, cat.realize(e), &ba_cli)));
+    WITH_WORLD.with(|w| w.set(false));
     let ba_s = parse_basic(&s4.text(), &cat.payloads);
 
     let (lt_s, ju_s, js_s) = (
